@@ -68,7 +68,11 @@ func encodeAppending(c *core.Ctx, r *rng.Rng, s mon.Sketch, omit bool) ([]byte, 
 	for i := range prefix {
 		prefix[i] = byte(r.U64())
 	}
-	buf := make([]byte, plen, plen+r.Intn(3)*r.Range(0, 4000))
+	arena := make([]byte, plen+r.Intn(3)*r.Range(0, 4000))
+	for i := range arena {
+		arena[i] = 0xA5 // the caller's other bytes in the same array, beyond the buffer's length
+	}
+	buf := arena[:plen]
 	copy(buf, prefix)
 	var panicked bool
 	panicked = c.Guard("Encode", func() { s.I().Encode(&buf, omit) })
@@ -76,6 +80,16 @@ func encodeAppending(c *core.Ctx, r *rng.Rng, s mon.Sketch, omit bool) ([]byte, 
 		return nil, false
 	}
 	c.Count("oracle.append_only_checks", 1)
+	if len(buf) > 0 && len(arena) > 0 && len(buf) <= len(arena) && &buf[0] == &arena[0] {
+		// the encoding fitted in the spare capacity: nothing beyond it was written
+		c.Count("oracle.spare_capacity_untouched", 1)
+		for i := len(buf); i < len(arena); i++ {
+			if arena[i] != 0xA5 {
+				c.Failf("encode.writes_past_the_encoding", "Encode appended %d bytes into spare capacity and also changed byte %d of the array beyond them", len(buf)-plen, i)
+				break
+			}
+		}
+	}
 	if len(buf) < plen || !bytes.Equal(buf[:plen], prefix) {
 		c.Failf("encode.clobbers_prefix", "Encode changed the %d bytes already in the caller's buffer", plen)
 		return nil, false
